@@ -105,11 +105,25 @@ fn lex_obs_json(r: &RealLex) -> J {
 
 pub fn replay_rows(tlc_out: &str, rep: &mut Report) {
     for payload in tlc_rows(tlc_out, "ROW") {
+        // a panic of the code under test is data: it violates whichever of C12 / C13 / C14 is being checked
+        crate::session::IN_SUT.with(|x| x.set(true));
+        let r = std::panic::catch_unwind(std::panic::AssertUnwindSafe(|| replay_row(&payload, rep)));
+        crate::session::IN_SUT.with(|x| x.set(false));
+        if r.is_err() {
+            for pid in ["C12", "C13", "C14"] {
+                rep.violation(pid, "tokenizer_panicked", json!({}), json!({"row": payload}));
+            }
+        }
+    }
+}
+
+fn replay_row(payload: &str, rep: &mut Report) {
+    let payload = payload.to_string();
         let row: J = match serde_json::from_str(&payload) {
             Ok(v) => v,
             Err(_) => {
                 rep.count("rows_unparsable");
-                continue;
+                return;
             }
         };
         rep.count("rows");
@@ -117,7 +131,7 @@ pub fn replay_rows(tlc_out: &str, rep: &mut Report) {
         let line_bytes = from_bytes(&row["line"]);
         let Ok(line) = String::from_utf8(line_bytes.clone()) else {
             rep.count("rows_not_utf8");
-            continue;
+            return;
         };
         let real = real_lex(&line, 0);
         let obs = lex_obs_json(&real);
@@ -170,7 +184,7 @@ pub fn replay_rows(tlc_out: &str, rep: &mut Report) {
             rep.count("perturbations");
             let Ok(text) = String::from_utf8(v.clone()) else {
                 rep.count("perturbations_not_utf8");
-                continue;
+                return;
             };
             let other = real_lex(&text, 0);
             // M_C13 on the perturbed spelling too: its ranges must be exact as well
@@ -207,13 +221,13 @@ pub fn replay_rows(tlc_out: &str, rep: &mut Report) {
             let entered = format!("10 {}", line);
             if a.start_evaluating(&entered).is_err() {
                 rep.violation("C14", "stored_line_rejected", json!({}), json!({"entered": bytes(&entered)}));
-                continue;
+                return;
             }
             let listing = match list_program(&mut a) {
                 Ok(l) => l,
                 Err(e) => {
                     rep.violation("C14", "list_failed", json!({"err": e}), json!({"entered": bytes(&entered)}));
-                    continue;
+                    return;
                 }
             };
             let listing_text: String = listing.concat();
@@ -257,5 +271,5 @@ pub fn replay_rows(tlc_out: &str, rep: &mut Report) {
                 );
             }
         }
-    }
+    
 }
